@@ -181,3 +181,53 @@ func vC03SubConc(nthreads int) {
 
 func vhC03_subconc_2() { vC03SubConc(2) }
 func vhC03_subconc_3() { vC03SubConc(3) }
+
+// C03 at operator level: "a panicking teardown does not stop the others from running; the panic is
+// re-raised to the caller of Unsubscribe only after all of them have run".  A multi-source entry over
+// hot probes, the teardown of one source (symbolic) panics, the subscription is cut by Unsubscribe.
+func vC03MultiPanic() {
+	op := &vMCatalog[vChoice("entry", len(vMCatalog))]
+	probes := make([]*vProbe, op.nsrc)
+	srcs := make([]Observable[int64], op.nsrc)
+	for i := range probes {
+		probes[i] = &vProbe{name: "src" + vItoa(i)}
+		srcs[i] = probes[i]
+	}
+	which := vChoice("panics", op.nsrc)
+	probes[which].panicTeardown = true
+	c := &vCtx{src: srcs, L: 2}
+	pipe := op.mk(c)
+	rec := &vRecorder{}
+	returned := false
+	var sub Subscription
+	vGo(func() {
+		sub = pipe(context.Background(), rec)
+		returned = true
+	})
+	vQuiesce()
+	if !returned {
+		vAssume(false) // operators that wait inside subscribe give no handle to unsubscribe with
+	}
+	var raised interface{}
+	func() {
+		defer func() { raised = recover() }()
+		sub.Unsubscribe()
+	}()
+	vQuiesce()
+	for i, p := range probes {
+		if p.subs == 0 {
+			continue
+		}
+		if i != which {
+			vAssert(p.live == 0 && p.maxTorn() == 1, op.name+": a source was not released exactly once although only another source's teardown panicked")
+		} else {
+			vAssert(p.maxTorn() == 1, op.name+": the panicking teardown did not run exactly once")
+		}
+	}
+	if probes[which].subs > 0 {
+		vAssert(raised != nil, op.name+": the panic of a source's teardown was not re-raised to the caller of Unsubscribe")
+	}
+	vReach("end")
+}
+
+func vhC03_multipanic() { vC03MultiPanic() }
